@@ -63,13 +63,24 @@ CHUNK_EXT = (
 )
 
 # Pre-compiled regular expressions for use elsewhere
-ONLY_HEXDIG_RE = re.compile(("^" + HEXDIG + "+$").encode("latin-1"))
-ONLY_DIGIT_RE = re.compile(("^" + DIGIT + "+$").encode("latin-1"))
+#
+# NB: the patterns are anchored with \Z rather than $: "$" also matches before
+# a trailing newline, which would let values such as b"5\n" through.
+ONLY_HEXDIG_RE = re.compile(("^" + HEXDIG + r"+\Z").encode("latin-1"))
+ONLY_DIGIT_RE = re.compile(("^" + DIGIT + r"+\Z").encode("latin-1"))
 HEADER_FIELD_RE = re.compile(
     (
-        "^(?P<name>" + TOKEN + "):" + OWS + "(?P<value>" + FIELD_VALUE + ")" + OWS + "$"
+        "^(?P<name>"
+        + TOKEN
+        + "):"
+        + OWS
+        + "(?P<value>"
+        + FIELD_VALUE
+        + ")"
+        + OWS
+        + r"\Z"
     ).encode("latin-1")
 )
 QUOTED_PAIR_RE = re.compile(QUOTED_PAIR)
 QUOTED_STRING_RE = re.compile(QUOTED_STRING)
-CHUNK_EXT_RE = re.compile(("^" + CHUNK_EXT + "$").encode("latin-1"))
+CHUNK_EXT_RE = re.compile(("^" + CHUNK_EXT + r"\Z").encode("latin-1"))
